@@ -217,7 +217,8 @@ impl<'r> Gen<'r> {
     }
 
     pub fn struct_ty(&mut self, depth: u32) -> Ty {
-        let n = if self.rng.chance(1, 12) { 0 } else { 1 + self.rng.below(self.cfg.max_fan) };
+        // (occasionally a wide struct: more fields than any small-size fast path would expect)
+        let n = if self.rng.chance(1, 12) { 0 } else if self.rng.chance(1, 40) { 9 + self.rng.below(8) } else { 1 + self.rng.below(self.cfg.max_fan) };
         let fs = self.fields(n, depth);
         Ty::Struct(self.rng.pick(TYPE_NAMES).to_string(), fs)
     }
@@ -248,7 +249,7 @@ impl<'r> Gen<'r> {
                     VarTy::Tuple((0..k).map(|_| self.ty(depth + 1, Pos::Elem)).collect())
                 }
                 _ => {
-                    let k = if self.rng.chance(1, 10) { 0 } else { 1 + self.rng.below(3) };
+                    let k = if self.rng.chance(1, 10) { 0 } else if self.rng.chance(1, 25) { 9 + self.rng.below(6) } else { 1 + self.rng.below(3) };
                     VarTy::Struct(self.fields(k, depth))
                 }
             };
@@ -387,7 +388,7 @@ impl<'r> Gen<'r> {
         }
     }
     pub fn int_in(&mut self, lo: i128, hi: i128) -> i128 {
-        let edges = [lo, lo + 1, hi, hi - 1, 0, 1, -1, 42, 127, 128, 255, 256, 65535, 65536, i32::MAX as i128, i32::MIN as i128, i64::MAX as i128, i64::MIN as i128, 1 << 53, (1 << 53) + 1];
+        let edges = [lo, lo + 1, hi, hi - 1, 0, 1, -1, 42, 127, 128, 255, 256, 65535, 65536, i32::MAX as i128, i32::MIN as i128, i64::MAX as i128, i64::MIN as i128, 1 << 53, (1 << 53) + 1, 1 << 63, (1 << 63) + 1, u64::MAX as i128, 1 << 64, i64::MIN as i128 - 1];
         for _ in 0..8 {
             let c = if self.rng.chance(2, 3) { *self.rng.pick(&edges) } else { (self.rng.next() as i64 >> self.rng.below(64)) as i128 };
             if c >= lo && c <= hi {
